@@ -1079,7 +1079,7 @@ fn replay(ctx: &Ctx, engine: &str, case: &Value) -> CaseResult {
 pub static C08: PropDef = PropDef {
     id: "C08",
     level: "exploration",
-    rule: "two generators. (1) histories of 1..12 steps on one thread: spawn a helper child with a generated (stdin, stdout, stderr) in {None, Pipe, Merge}, Pipeline::popen / communicate / stream_stdin / stream_stdout with 2..6 stages, all earlier Popens, Communicators and adapters staying open; after every step the descriptor table of every live child is read from /proc. (2) 2..3 threads each creating 1..3 children under a cooperative scheduler hooked into every interposed call (pipe, fcntl, fork, read, close, waitpid), so the generated schedule owns the interleaving at system-call granularity and replays deterministically. Oracle: the interposed pipe() registers every pipe the library makes; in any child, a descriptor that points at a registered pipe must be one of fds 0-2, be the child-side end, not be a launch-status channel, not be the stderr-capture pipe's read end and not belong to a different child's Popen; only registered inodes are judged. When the tables are clean: closing the parent's stdin end makes a read-to-EOF child exit, and after killing a child the parent sees EOF on its stdout although unrelated children are alive. Non-trivial = at least two children alive simultaneously; distinct = distinct histories / schedules among those. Further steps: a launch that fails with ETXTBSY while earlier Popens are alive (the forked child must not sleep before giving up: it holds a copy of every descriptor of the parent); a daemon-style pair - with the parent's own descriptors closed a child with piped streams, whose parent ends land on 0-2, followed by a child with nothing redirected, whose table is audited.",
+    rule: "two generators. (1) histories of 1..12 steps on one thread: spawn a helper child with a generated (stdin, stdout, stderr) in {None, Pipe, Merge}, Pipeline::popen / communicate / stream_stdin / stream_stdout with 2..6 stages, all earlier Popens, Communicators and adapters staying open; after every step the descriptor table of every live child is read from /proc. (2) 2..3 threads each creating 1..3 children under a cooperative scheduler hooked into every interposed call (pipe, fcntl, fork, read, close, waitpid), so the generated schedule owns the interleaving at system-call granularity and replays deterministically. Oracle: the interposed pipe() registers every pipe the library makes; in any child, a descriptor that points at a registered pipe must be one of fds 0-2, be the child-side end, not be a launch-status channel, not be the stderr-capture pipe's read end and not belong to a different child's Popen; only registered inodes are judged. When the tables are clean: closing the parent's stdin end makes a read-to-EOF child exit, and after killing a child the parent sees EOF on its stdout although unrelated children are alive. Non-trivial = at least two children alive simultaneously; distinct = distinct histories / schedules among those. Further steps: a launch that fails with ETXTBSY while earlier Popens are alive (the forked child must not sleep before giving up: it holds a copy of every descriptor of the parent); a daemon-style pair - with the parent's own descriptors closed a child with piped streams, whose parent ends land on 0-2, followed by a child with nothing redirected, whose table is audited. In an eighth of the histories pipe2() answers ENOSYS while pipe() works: a launch may give up with that error or must leave the children's tables as clean as ever.",
     assumptions: &["the scheduler's yield points sit at libc call boundaries (where descriptor state changes); preemption inside a system call is not modelled", "/proc/<pid>/fd of the children is read after Popen::create returned (exec has happened, close-on-exec applied)"],
     engines: "real",
     workers: |_| 16,
